@@ -250,4 +250,43 @@ func VerifC17OneFault() {
 	}
 }
 
+// VerifC17AbortedHeal: a consumer that opens a part with one shard missing
+// and closes the stream before the decoder has delivered anything (the one
+// schedule of an aborted download the sequential goroutine model follows: the
+// decoding goroutine runs when Close waits for it, with the pipe already
+// closed). The abandoned healing write must not publish a shard: afterwards the
+// shard is either still absent or complete, never a well-formed prefix that
+// later reads would trust while the redundancy is in fact gone.
+func VerifC17AbortedHeal() {
+	shards := []*verifC17Shard{{}, {}, {}}
+	st := verifC17Store(shards)
+	ctx := context.Background()
+	n := verifC17Sizes[verifPick("size", 0, verifParam("sizes", 3)-1)]
+	body := verifC17Body("b", n)
+	verifAssert(st.PutPart(ctx, nil, verifC17ID, bytes.NewReader(body)) == nil, "C17: PutPart failed")
+	orig := [][]byte{append([]byte(nil), shards[0].data...), append([]byte(nil), shards[1].data...), append([]byte(nil), shards[2].data...)}
+	f := verifPick("faulty-shard", 0, 2)
+	shards[f].present, shards[f].data = false, nil
+
+	rc, err := st.GetPart(ctx, nil, verifC17ID)
+	verifAssert(err == nil, "C17: opening a part with one shard missing failed")
+	rc.Close()
+	verifCover("aborted")
+	verifAssert(!shards[f].present || verifC17Same(shards[f].data, orig[f]), "C17: an aborted healing read published an incomplete shard")
+	for i := range shards {
+		if i != f {
+			verifAssert(verifC17Same(shards[i].data, orig[i]), "C17: the aborted read changed a healthy shard")
+		}
+	}
+	// a complete read afterwards still returns the part (and heals)
+	rc, err = st.GetPart(ctx, nil, verifC17ID)
+	var got []byte
+	if err == nil {
+		got, err = io.ReadAll(rc)
+		rc.Close()
+	}
+	verifAssert(err == nil && verifC17Same(got, body), "C17: the read after an aborted healing read failed or returned other bytes")
+	verifAssert(shards[f].present && verifC17Same(shards[f].data, orig[f]), "C17: the complete read after an aborted one did not restore the missing shard")
+}
+
 var _ = errors.New
